@@ -6,6 +6,7 @@ import (
 	"fmt"
 	"go/types"
 	"math/big"
+	"sort"
 	"strconv"
 	"strings"
 	"unicode"
@@ -19,73 +20,73 @@ var nativeTable map[string]nativeFn
 
 func init() {
 	nativeTable = map[string]nativeFn{
-		"regexp.MustCompile":                     natRegexpCompile,
-		"regexp.Compile":                         natRegexpCompile2,
-		"(*regexp.Regexp).FindStringSubmatch":    natFindStringSubmatch,
-		"(*regexp.Regexp).MatchString":           natMatchString,
-		"(*regexp.Regexp).FindString":            natFindString,
-		"(*regexp.Regexp).FindStringIndex":       natFindStringIndex,
-		"(*regexp.Regexp).String":                natRegexpString,
-		"regexp.MatchString":                     natRegexpMatchString,
-		"fmt.Sprintf":                            natSprintf,
-		"fmt.Errorf":                             natErrorf,
-		"fmt.Sprint":                             natSprint,
-		"fmt.Fprintf":                            natFprintf,
-		"fmt.Fprintln":                           natFprintln,
-		"fmt.Fprint":                             natFprint,
-		"errors.New":                             natErrorsNew,
-		"errors.Is":                              natErrorsIs,
-		"errors.Unwrap":                          natErrorsUnwrap,
-		"strings.ToLower":                        natToLower,
-		"strings.ToUpper":                        natToUpper,
-		"strings.TrimSpace":                      natTrimSpace,
-		"strings.Split":                          natSplit,
-		"strings.SplitN":                         natSplitN,
-		"strings.Fields":                         natFields,
-		"strings.Index":                          natIndex,
-		"strings.IndexByte":                      natIndexByte,
-		"strings.IndexRune":                      natIndexRune,
-		"strings.LastIndex":                      natLastIndex,
-		"strings.LastIndexByte":                  natLastIndexByte,
-		"strings.Contains":                       natContains,
-		"strings.Count":                          natCount,
-		"strings.Join":                           natJoin,
-		"strings.Compare":                        natCompare,
-		"strings.ReplaceAll":                     natReplaceAll,
-		"strings.Replace":                        natReplace,
-		"strings.Repeat":                         natRepeat,
-		"strings.Clone":                          natIdentity,
-		"internal/stringslite.Clone":             natIdentity,
-		"strconv.cloneString":                    natIdentity,
-		"strings.Map":                            natMap,
-		"(*strings.Builder).WriteString":         natBuilderWriteString,
-		"(*strings.Builder).WriteByte":           natBuilderWriteByte,
-		"(*strings.Builder).WriteRune":           natBuilderWriteRune,
-		"(*strings.Builder).Write":               natBuilderWrite,
-		"(*strings.Builder).String":              natBuilderString,
-		"(*strings.Builder).Len":                 natBuilderLen,
-		"(*strings.Builder).Grow":                natNop,
-		"(*strings.Builder).Reset":               natBuilderReset,
-		"strconv.Itoa":                           natItoa,
-		"strconv.FormatInt":                      natFormatInt,
-		"strconv.Quote":                          natQuote,
-		"unicode.IsDigit":                        natUnicodePred(unicode.IsDigit),
-		"unicode.IsNumber":                       natUnicodePred(unicode.IsNumber),
-		"unicode.IsLetter":                       natUnicodePred(unicode.IsLetter),
-		"unicode.IsSpace":                        natUnicodePred(unicode.IsSpace),
-		"unicode.IsUpper":                        natUnicodePred(unicode.IsUpper),
-		"unicode.IsLower":                        natUnicodePred(unicode.IsLower),
-		"unicode.IsPunct":                        natUnicodePred(unicode.IsPunct),
-		"unicode.IsControl":                      natUnicodePred(unicode.IsControl),
-		"unicode.IsPrint":                        natUnicodePred(unicode.IsPrint),
-		"unicode.IsGraphic":                      natUnicodePred(unicode.IsGraphic),
-		"unicode.IsSymbol":                       natUnicodePred(unicode.IsSymbol),
-		"unicode.ToLower":                        natUnicodeMap(unicode.ToLower),
-		"unicode.ToUpper":                        natUnicodeMap(unicode.ToUpper),
-		"os.Exit":                                natOsExit,
-		"time.Now":                               natNondet("time.Now"),
-		"math/rand.Int":                          natNondet("math/rand"),
-		"math/rand.Intn":                         natNondet("math/rand"),
+		"regexp.MustCompile":                  natRegexpCompile,
+		"regexp.Compile":                      natRegexpCompile2,
+		"(*regexp.Regexp).FindStringSubmatch": natFindStringSubmatch,
+		"(*regexp.Regexp).MatchString":        natMatchString,
+		"(*regexp.Regexp).FindString":         natFindString,
+		"(*regexp.Regexp).FindStringIndex":    natFindStringIndex,
+		"(*regexp.Regexp).String":             natRegexpString,
+		"regexp.MatchString":                  natRegexpMatchString,
+		"fmt.Sprintf":                         natSprintf,
+		"fmt.Errorf":                          natErrorf,
+		"fmt.Sprint":                          natSprint,
+		"fmt.Fprintf":                         natFprintf,
+		"fmt.Fprintln":                        natFprintln,
+		"fmt.Fprint":                          natFprint,
+		"errors.New":                          natErrorsNew,
+		"errors.Is":                           natErrorsIs,
+		"errors.Unwrap":                       natErrorsUnwrap,
+		"strings.ToLower":                     natToLower,
+		"strings.ToUpper":                     natToUpper,
+		"strings.TrimSpace":                   natTrimSpace,
+		"strings.Split":                       natSplit,
+		"strings.SplitN":                      natSplitN,
+		"strings.Fields":                      natFields,
+		"strings.Index":                       natIndex,
+		"strings.IndexByte":                   natIndexByte,
+		"strings.IndexRune":                   natIndexRune,
+		"strings.LastIndex":                   natLastIndex,
+		"strings.LastIndexByte":               natLastIndexByte,
+		"strings.Contains":                    natContains,
+		"strings.Count":                       natCount,
+		"strings.Join":                        natJoin,
+		"strings.Compare":                     natCompare,
+		"strings.ReplaceAll":                  natReplaceAll,
+		"strings.Replace":                     natReplace,
+		"strings.Repeat":                      natRepeat,
+		"strings.Clone":                       natIdentity,
+		"internal/stringslite.Clone":          natIdentity,
+		"strconv.cloneString":                 natIdentity,
+		"strings.Map":                         natMap,
+		"(*strings.Builder).WriteString":      natBuilderWriteString,
+		"(*strings.Builder).WriteByte":        natBuilderWriteByte,
+		"(*strings.Builder).WriteRune":        natBuilderWriteRune,
+		"(*strings.Builder).Write":            natBuilderWrite,
+		"(*strings.Builder).String":           natBuilderString,
+		"(*strings.Builder).Len":              natBuilderLen,
+		"(*strings.Builder).Grow":             natNop,
+		"(*strings.Builder).Reset":            natBuilderReset,
+		"strconv.Itoa":                        natItoa,
+		"strconv.FormatInt":                   natFormatInt,
+		"strconv.Quote":                       natQuote,
+		"unicode.IsDigit":                     natUnicodePred(unicode.IsDigit),
+		"unicode.IsNumber":                    natUnicodePred(unicode.IsNumber),
+		"unicode.IsLetter":                    natUnicodePred(unicode.IsLetter),
+		"unicode.IsSpace":                     natUnicodePred(unicode.IsSpace),
+		"unicode.IsUpper":                     natUnicodePred(unicode.IsUpper),
+		"unicode.IsLower":                     natUnicodePred(unicode.IsLower),
+		"unicode.IsPunct":                     natUnicodePred(unicode.IsPunct),
+		"unicode.IsControl":                   natUnicodePred(unicode.IsControl),
+		"unicode.IsPrint":                     natUnicodePred(unicode.IsPrint),
+		"unicode.IsGraphic":                   natUnicodePred(unicode.IsGraphic),
+		"unicode.IsSymbol":                    natUnicodePred(unicode.IsSymbol),
+		"unicode.ToLower":                     natUnicodeMap(unicode.ToLower),
+		"unicode.ToUpper":                     natUnicodeMap(unicode.ToUpper),
+		"os.Exit":                             natOsExit,
+		"time.Now":                            natNondet("time.Now"),
+		"math/rand.Int":                       natNondet("math/rand"),
+		"math/rand.Intn":                      natNondet("math/rand"),
 	}
 }
 
@@ -731,27 +732,68 @@ func (in *Interp) requireASCII(s Str, what string) {
 }
 
 func natToLower(in *Interp, fn *ssa.Function, args []Value) Value {
-	s := args[0].(Str)
-	if c, ok := s.Concrete(); ok {
-		return in.mkStr(strings.ToLower(c))
-	}
-	in.requireASCII(s, "strings.ToLower")
-	out := make([]*Term, len(s.B))
-	for i, b := range s.B {
-		out[i] = in.tb.Ite(in.tb.InSet(b, upperSet), in.tb.Add(b, in.tb.Int(32)), b)
-	}
-	return Str{out}
+	return in.caseMap(args[0].(Str), unicode.ToLower, upperSet, 32, strings.ToLower, "strings.ToLower")
 }
 
 func natToUpper(in *Interp, fn *ssa.Function, args []Value) Value {
-	s := args[0].(Str)
+	return in.caseMap(args[0].(Str), unicode.ToUpper, lowerSet, -32, strings.ToUpper, "strings.ToUpper")
+}
+
+// caseMap: strings.ToLower / ToUpper. ASCII bytes shift by +-32 inside their letter class. As soon
+// as the string is not pure ASCII the real functions go through strings.Map: every rune is mapped
+// and re-encoded and every invalid byte becomes U+FFFD; a symbolic two-byte rune is mapped by its
+// delta groups (runes whose image is not a two-byte rune are split off one by one).
+func (in *Interp) caseMap(s Str, f func(rune) rune, asciiFrom ByteSet, asciiDelta int64, whole func(string) string, what string) Value {
 	if c, ok := s.Concrete(); ok {
-		return in.mkStr(strings.ToUpper(c))
+		return in.mkStr(whole(c))
 	}
-	in.requireASCII(s, "strings.ToUpper")
-	out := make([]*Term, len(s.B))
-	for i, b := range s.B {
-		out[i] = in.tb.Ite(in.tb.InSet(b, lowerSet), in.tb.Add(b, in.tb.Int(-32)), b)
+	tb := in.tb
+	ascii := true
+	for _, b := range s.B {
+		if !in.branch(tb.Lt(b, tb.Int(128))) {
+			ascii = false
+			break
+		}
+	}
+	out := make([]*Term, 0, len(s.B))
+	if ascii {
+		for _, b := range s.B {
+			out = append(out, tb.Ite(tb.InSet(b, asciiFrom), tb.Add(b, tb.Int(asciiDelta)), b))
+		}
+		return Str{out}
+	}
+	for i := 0; i < len(s.B); {
+		b := s.B[i]
+		if in.branch(tb.Lt(b, tb.Int(128))) {
+			out = append(out, tb.Ite(tb.InSet(b, asciiFrom), tb.Add(b, tb.Int(asciiDelta)), b))
+			i++
+			continue
+		}
+		r, w := in.decodeRune(s.B[i:])
+		i += w
+		if c, ok := r.Int64(); ok {
+			out = append(out, in.mkStr(string(f(rune(c)))).B...)
+			continue
+		}
+		lo, hi, ok := in.runeRange(r)
+		if !ok || w != 2 || lo < 0x80 || hi > 0x7FF {
+			unsup("%s on a symbolic three- or four-byte UTF-8 sequence", what)
+		}
+		// runes whose image leaves the two-byte range
+		done := false
+		for c := lo; c <= hi && !done; c++ {
+			if m := f(rune(c)); m < 0x80 || m > 0x7FF {
+				if in.branch(tb.Eq(r, tb.Int(c))) {
+					out = append(out, in.mkStr(string(m)).B...)
+					done = true
+				}
+			}
+		}
+		if done {
+			continue
+		}
+		res := in.mapRuneTerm(r, lo, hi, f, func(m rune) bool { return m >= 0x80 && m <= 0x7FF })
+		out = append(out, tb.Add(tb.Int(0xC0), tb.DivF(res, big.NewInt(64))), tb.Add(tb.Int(0x80), tb.ModF(res, big.NewInt(64))))
 	}
 	return Str{out}
 }
@@ -917,33 +959,33 @@ func natSplitN(in *Interp, fn *ssa.Function, args []Value) Value {
 
 func natFields(in *Interp, fn *ssa.Function, args []Value) Value {
 	s := args[0].(Str)
-	in.requireASCII(s, "strings.Fields")
 	if c, ok := s.Concrete(); ok {
-		hasHigh := false
-		for i := 0; i < len(c); i++ {
-			if c[i] >= 0x80 {
-				hasHigh = true
-			}
+		var parts []Str
+		off := 0
+		for _, f := range strings.Fields(c) {
+			i := strings.Index(c[off:], f) + off
+			parts = append(parts, Str{s.B[i : i+len(f)]})
+			off = i + len(f)
 		}
-		if hasHigh {
-			var parts []Str
-			for _, f := range strings.Fields(c) {
-				parts = append(parts, in.mkStr(f))
-			}
-			return in.strSlice(parts)
-		}
+		return in.strSlice(parts)
 	}
+	// white space is found byte-wise: ASCII white space, or one of the non-ASCII white space runes by its
+	// exact UTF-8 sequence (UTF-8 is self-synchronising, so such a sequence never starts inside a rune)
 	var parts []Str
 	start := -1
-	for i := range s.B {
-		if in.isSpaceByte(s, i) {
+	for i := 0; i < len(s.B); {
+		if w := in.spaceSeq(s.B[i:], true); w > 0 {
 			if start >= 0 {
 				parts = append(parts, Str{s.B[start:i]})
 				start = -1
 			}
-		} else if start < 0 {
+			i += w
+			continue
+		}
+		if start < 0 {
 			start = i
 		}
+		i++
 	}
 	if start >= 0 {
 		parts = append(parts, Str{s.B[start:]})
@@ -1227,9 +1269,8 @@ func natUnicodePred(f func(rune) bool) nativeFn {
 		}
 		// a symbolic rune above 255 with known bounds (decoded from symbolic UTF-8 bytes): the
 		// predicate as a union of code-point ranges
-		if r.lo != nil && r.hi != nil && r.lo.IsInt64() && r.hi.IsInt64() && r.hi.Int64()-r.lo.Int64() <= 0x10000 && r.lo.Int64() >= 0 {
+		if lo, hi, ok := in.runeRange(r); ok && hi-lo <= 0x10000 && lo >= 0 {
 			res := in.tb.False
-			lo, hi := r.lo.Int64(), r.hi.Int64()
 			start := int64(-1)
 			for c := lo; c <= hi+1; c++ {
 				on := c <= hi && f(rune(c))
@@ -1248,11 +1289,54 @@ func natUnicodePred(f func(rune) bool) nativeFn {
 	}
 }
 
+// mapRuneTerm: f applied to a symbolic rune in [lo, hi] as an ite over the delta groups of f
+// (runes with the same f(c)-c); runes whose image fails keep() are left unmapped (the caller
+// has split them off).
+func (in *Interp) mapRuneTerm(r *Term, lo, hi int64, f func(rune) rune, keep func(rune) bool) *Term {
+	tb := in.tb
+	type span struct{ lo, hi int64 }
+	groups := map[int64][]span{}
+	for c := lo; c <= hi; c++ {
+		m := f(rune(c))
+		if !keep(m) {
+			continue
+		}
+		d := int64(m) - c
+		if d == 0 {
+			continue
+		}
+		g := groups[d]
+		if n := len(g); n > 0 && g[n-1].hi == c-1 {
+			g[n-1].hi = c
+		} else {
+			g = append(g, span{c, c})
+		}
+		groups[d] = g
+	}
+	var deltas []int64
+	for d := range groups {
+		deltas = append(deltas, d)
+	}
+	sort.Slice(deltas, func(i, j int) bool { return deltas[i] < deltas[j] })
+	res := r
+	for _, d := range deltas {
+		cond := tb.False
+		for _, sp := range groups[d] {
+			cond = tb.Or(cond, tb.And(tb.Le(tb.Int(sp.lo), r), tb.Le(r, tb.Int(sp.hi))))
+		}
+		res = tb.Ite(cond, tb.Add(r, tb.Int(d)), res)
+	}
+	return res
+}
+
 func natUnicodeMap(f func(rune) rune) nativeFn {
 	return func(in *Interp, fn *ssa.Function, args []Value) Value {
 		r := args[0].(*Term)
 		if c, ok := r.Int64(); ok {
 			return in.tb.Int(int64(f(rune(c))))
+		}
+		if lo, hi, ok := in.runeRange(r); ok && lo >= 0x80 && hi-lo <= 0x800 {
+			return in.mapRuneTerm(r, lo, hi, f, func(rune) bool { return true })
 		}
 		if !(r.lo != nil && r.hi != nil && r.lo.Sign() >= 0 && r.hi.Cmp(big.NewInt(127)) <= 0) {
 			if !in.branch(in.tb.And(in.tb.Le(in.tb.Int(0), r), in.tb.Le(r, in.tb.Int(127)))) {
